@@ -82,6 +82,9 @@ def finishSlashBlock (sc : SlScan) : SlScan := Id.run do
   | none => pure ()
   | some prev =>
     for x in sc.xs do
+      -- following the backers' tokens never breaks down: no dispute transaction ends in a recovered panic
+      if (x.kind == "disp" || x.kind == "addfee") && ((x.get "why").splitOn "runtime_error").length > 1 then
+        sc := sfail sc s!"dispute transaction of {x.signer} panicked: {x.get "why"}"
       -- a dispute is accepted only for a report really submitted with the stated value and power
       if x.kind == "disp" && x.ok && x.get "mut" != "-" then
         sc := sknown sc s!"dispute accepted for an altered/invented report ({x.get "mut"}) by {x.signer}"
